@@ -63,7 +63,8 @@ example : onEmpty ⟨"count", "impl.Count", 0, 0, false⟩ = some "ok:[I:0]" := 
 section Expr
 open FP.Model.Eval
 
-def strict0 : List String := ["first", "last", "tail", "distinct", "not", "length", "toChars", "abs", "ceiling", "floor", "truncate"]
+def strict0 : List String := ["first", "last", "tail", "distinct", "not", "length", "toChars", "abs", "ceiling", "floor", "truncate",
+  "toString", "toInteger", "toDecimal", "toBoolean", "convertsToString", "convertsToInteger", "convertsToDecimal", "convertsToBoolean"]
 def strict1 : List String := ["where", "select", "skip", "take", "intersect", "exclude", "startsWith", "endsWith", "contains", "indexOf", "substring"]
 def strict2 : List String := ["substring", "replace"]
 
@@ -75,6 +76,8 @@ inductive StrictStep : E → Prop where
   | fn0 (n) : n ∈ strict0 → StrictStep (.fn n .argNil)
   | fn1 (n a) : n ∈ strict1 → StrictStep (.fn n (.argCons a .argNil))
   | fn2 (n a b) : n ∈ strict2 → StrictStep (.fn n (.argCons a (.argCons b .argNil)))
+  | isT (e t) : StrictStep e → StrictStep (.isT e t)
+  | asT (e t) : StrictStep e → StrictStep (.asT e t)
   | neg (e) : StrictStep e → StrictStep (.neg e)
   | seq (a b) : StrictStep a → StrictStep b → StrictStep (.seq a b)
 
@@ -88,9 +91,9 @@ theorem strict_path_on_empty (env : Env) (e : E) (h : StrictStep e) : eval env e
   | typeRoot n => rfl
   | fn0 n hn =>
     simp only [strict0, List.mem_cons, List.not_mem_nil, or_false] at hn
-    rcases hn with rfl | rfl | rfl | rfl | rfl | rfl | rfl | rfl | rfl | rfl | rfl <;>
+    rcases hn with rfl | rfl | rfl | rfl | rfl | rfl | rfl | rfl | rfl | rfl | rfl | rfl | rfl | rfl | rfl | rfl | rfl | rfl | rfl <;>
       simp [eval, apply0, firstFn, lastFn, tailFn, distinctFn, distinctAux, notFn, toSingletonBoolean, mapRes, bools,
-        onString, mathOn, Res.bind] <;> rfl
+        onString, mathOn, convOn, convertsOn, Res.bind] <;> rfl
   | fn1 n a hn =>
     simp only [strict1, List.mem_cons, List.not_mem_nil, or_false] at hn
     rcases hn with rfl | rfl | rfl | rfl | rfl | rfl | rfl | rfl | rfl | rfl | rfl <;>
@@ -98,6 +101,8 @@ theorem strict_path_on_empty (env : Env) (e : E) (h : StrictStep e) : eval env e
   | fn2 n a b hn =>
     simp only [strict2, List.mem_cons, List.not_mem_nil, or_false] at hn
     rcases hn with rfl | rfl <;> simp [eval, apply2, onString]
+  | isT e t _ ih => simp [eval, ih, Res.bind, typeOpColl]
+  | asT e t _ ih => simp [eval, ih, Res.bind, typeOpColl]
   | neg e _ ih => simp [eval, ih, Res.bind, negColl]
   | seq a b _ _ iha ihb => simp [eval, iha, ihb, Res.bind]
 
